@@ -9,10 +9,11 @@ RULE = ('one pair (x, xp) + a free variable: every transition relation of 3 vari
         'any order [image], rename/qvars given by name and by level, dd.bdd and dd.autoref; two and three pairs sampled. '
         'Documented preconditions enforced on inputs: keys disjoint from values; image: each rename target is quantified '
         'or absent from both operands; preimage: pairs adjacent and target independent of the rename values. Inputs '
-        'outside them are counted (outside_precondition), not judged. Oracle: rename, conjoin, quantify on truth tables. '
+        'outside them are counted (outside_precondition), not judged. Oracle: rename, conjoin, quantify on truth tables. Level-shift histories '
+        '(lib.shift_history: two pairs kept adjacent, unused variables between them undeclared / declared, node numbers re-used). '
         'non-trivial: result non-constant; distinct = (op, trans tt, set tt, qvars, quantifier, order).')
 EXHAUSTIVE = {'quick': False, 'thorough': True}
-REQUIRED_COUNTERS = ['image-checked', 'preimage-checked', 'image-nonadjacent-checked']
+REQUIRED_COUNTERS = ['image-checked', 'preimage-checked', 'image-nonadjacent-checked', 'products-after-level-shift']
 
 
 def bounds(tier):
@@ -30,6 +31,9 @@ def chunks(tier, seed):
     for o in orders:
         for k in range(0, len(rel), 32):
             out.append(('case_one_pair', [dict(order=list(o), rels=rel[k:k + 32], seed=seed)]))
+    ns = 40 if tier == 'quick' else 400 * DEEP
+    for k in range(0, ns, 10):
+        out.append(('case_shift', [dict(seed=seed * 4441 + k + i, steps=30) for i in range(10)]))
     n = 150 if tier == 'quick' else 4000 * DEEP
     for k in range(0, n, 25):
         out.append(('case_multi', [dict(seed=seed * 211 + k + i) for i in range(25)]))
@@ -174,3 +178,41 @@ def case_multi(c, res):
     wf(b, names)
     b.decref(u); b.decref(v)
     return (kind, tr, st, tuple(sorted(qv)), fa)
+
+
+def case_shift(c, res):
+    """image / preimage over two primed/unprimed pairs of a few held relations and sets while unused variables between the pairs are
+    undeclared / declared and node numbers are re-used (lib.shift_history; the pairs stay adjacent)"""
+    keys = []
+    base = ['x', 'y']
+
+    def query(m, b, names, held, rnd):
+        n = len(names)
+        (u, tr), (v0, st) = rnd.choice(held), rnd.choice(held)
+        kind = rnd.choice(['image', 'preimage'])
+        fa = rnd.random() < .3
+        auto = rnd.random() < .4
+        as_levels = rnd.random() < .3
+        sub = rnd.sample(base, rnd.randint(1, 2))
+        if kind == 'image':
+            ren = {x + 'p': x for x in sub}
+            qv = set(sub) | set(rnd.sample(names, rnd.randint(0, 1)))
+            qv -= set(ren)
+            want = _image_oracle(tr, st, ren, qv, fa, names)
+        else:
+            ren = {x: x + 'p' for x in sub}
+            for x in base:
+                st = cof(st, names.index(x + 'p'), 0, n)
+            qv = set(x + 'p' for x in sub) | set(rnd.sample(names, rnd.randint(0, 1)))
+            want = _preimage_oracle(tr, st, ren, qv, fa, names)
+        v = build(b, st, names)
+        b.incref(v)
+        r = _call(kind, m, b, auto, as_levels, u, v, ren, qv, fa)
+        got = den(b, r, names)
+        b.decref(v)
+        require(got == want, f'{kind}#post:relational-product',
+                lambda: f'after declarations changed: pairs={ren} qvars={qv} forall={fa} trans={tr} set={st} order={dict(b.vars)}: got {got} want {want}')
+        res.count('products-after-level-shift')
+        keys.append((kind, tr, st, tuple(sorted(qv)), fa, tuple(sorted(b.vars, key=b.vars.get))))
+    shift_history(c, res, query, names=('x', 'xp', 'y', 'yp'), blocks=[('x', 'xp'), ('y', 'yp')], swaps=False)
+    return keys
